@@ -48,6 +48,7 @@ PLAN = {
     "C17": {"level": "exploration", "parts": [sched(800_000, 40_000_000)]},
     "C18": {"level": "exploration", "parts": [sched(800_000, 40_000_000)]},
     "C20": {"level": "fault_enumeration", "parts": [poll(32_000, 1_600_000)]},
+    "C19": {"level": "exploration", "parts": [dict(ws="real", bin="simreal", engine="diff", quick=160_000, thorough=6_000_000)], "reject": True},
     "C16": {
         "level": "exploration",
         "parts": [l1(64 * 3456, 2000 * 3456), l2(100_000, 4_000_000)],
@@ -66,6 +67,10 @@ ASSUMPTIONS = [
 ]
 
 COMPONENTS = {
+    "diff": {
+        "real": ["cachelito-macros / cachelito-async-macros expansions of the 260-function corpus", "cachelito-core caches constructed directly (same build)", "parking_lot", "dashmap", "once_cell", "fastrand (re-seeded identically for both sides)"],
+        "stand_in": ["clock", "bodies / predicates (scripted)", "the wrapper logic restated in sim/real/harness/src/diff.rs for the directly configured side"],
+    },
     "sched": {
         "real": ["cachelito-core, cachelito-macros, cachelito-async-macros, cachelito-macro-utils compiled from /repo (same sources)", "the corpus expansions", "fastrand"],
         "stand_in": ["parking_lot::{Mutex,RwLock} = sim/shims/parking_lot on shuttle::sync", "dashmap::DashMap = sim/shims/dashmap (1/2/4 shards of scheduled RwLock<BTreeMap>)", "once_cell::sync::{Lazy,OnceCell} = sim/shims/once_cell (execution-scoped, scheduled Once)", "std::sync::Once in expansions = shuttle::sync::Once", "thread scheduler = shuttle RandomScheduler / PctScheduler seeded per execution", "clock, registry map ordering (seams)", "statistics atomics get a scheduling point before every operation (seam)"],
